@@ -6,4 +6,6 @@ CHECKS = {
             "deadline_s": {"quick": 300, "thorough": 3000}},
     "C04": {"pkg": "c04", "deps": [], "level": "model_checking",
             "deadline_s": {"quick": 300, "thorough": 3000}},
+    "C20": {"pkg": "c20", "deps": [], "level": "model_checking",
+            "deadline_s": {"quick": 300, "thorough": 3000}},
 }
